@@ -36,3 +36,14 @@ Print Assumptions C17_error_span_char.
 Theorem C17_error_span_end : forall pos, err_span pos [] = (pos, 0).
 Proof. exact err_span_end. Qed.
 Print Assumptions C17_error_span_end.
+
+From WaxModel Require Import Variance Fold Rule Parse Query Glob.
+From WaxProofs Require Import PartitionSpans.
+
+(* after partition: the spans of the top-level tokens of the postfix - hence its capture spans - lie in the displayed suffix of the
+   expression, on character boundaries (the tokens tile the expression, so every token from the cut on begins at or after the popped
+   bytes, and the shift by their number maps a span of the expression to the same characters of the suffix) *)
+Theorem C17_postfix_capture_spans_lie_in_the_suffix : forall hc e t r text post e' c,
+  build e = BuildOk t r -> partition hc e t = Ok (PartSome text post e') -> In c (captures post) -> span_ok e' (snd c).
+Proof. exact postfix_capture_spans_ok. Qed.
+Print Assumptions C17_postfix_capture_spans_lie_in_the_suffix.
